@@ -90,7 +90,7 @@ class ClustererDouble:
             return int(self.script["by_point"](x))
         key = tuple(np.round(np.asarray(x, dtype=float), 9).tolist())
         if key not in self.label_of:
-            self.label_of[key] = integer(self.ctx, f"lab{len(self.label_of)}", lo=0, hi=self.K - 1).resolve(0, self.K - 1)
+            self.label_of[key] = integer(self.ctx, f"lab{self.n_fit}_{len(self.label_of)}", lo=0, hi=self.K - 1).resolve(0, self.K - 1)
         return self.label_of[key]
 
     def training_labels(self):
@@ -344,6 +344,110 @@ def make_pipeline(cluster_every, npool, n_particles, kmax, first_iter_range=(1, 
                       theory="QF_LIA", max_paths=60000, max_decisions=400)
 
 
+def make_two_iterations(cluster_every, npool, kmax, first_iter=3):
+    """two consecutive annealing iterations on the same step objects (Trainer, Resampler, Mutator, clustering model): the first one
+    fits the model, the second one either refits (cluster_every divides the iteration number) or reuses it on the grown pool. The
+    label/mode coherence clauses must hold in the second iteration as well - nothing remembered from the first may stand in for it."""
+    n_particles = 1
+    W1, W2 = np.array(POOL_W[npool]), np.array(POOL_W[npool + n_particles])
+
+    def verdicts(clusterer, fitd, pick):
+        """both iterations on the real steps; pick(round, j, a) -> index into `a` chosen by the resampler; returns (label, ok, detail)."""
+        out = []
+        st, u = build_state(npool, n_particles, first_iter)
+        tr = train_mod.Trainer(state=st, pbar=None, clusterer=clusterer, cluster_every=cluster_every, clustering=True, TRIM_ESS=0.99, TRIM_BINS=50, DOF_FALLBACK=1e6)
+        rs = resample_mod.Resampler(st, n_particles=n_particles, resample="mult", clusterer=clusterer, clustering=True)
+        mut = mutate_mod.Mutator(state=st, prior_transform=lambda v: v, log_likelihood=None, pbar=None, n_particles=n_particles, n_dim=1, n_steps=1, n_max_steps=1, sampler="tpcn")
+        st._current["calls"] = 0
+        for round_, W in enumerate((W1, W2)):
+            tag = f"iteration-{round_ + 1}:"
+            st._current["iter"] = first_iter + round_
+            n_fits_before = len(fitd.fits)
+            fits_before_model = clusterer.n_fit
+
+            class RS:
+                @staticmethod
+                def choice(a, size=None, replace=True, p=None, r_=round_):
+                    return np.array([int(a[pick(r_, j, a)]) for j in range(int(size))], dtype=int)
+            seen = {}
+
+            def recorder(**kw):
+                seen.update(kw)
+                n = len(kw["u"])
+                return kw["u"], kw["x"], kw["logl"], None, 1.0, 0.5, 1, n
+            try:
+                with patched(modes_mod, fit_mvstud=fitd, np=NpProxy(random=type("R", (), {"choice": staticmethod(choice_cover)})())), \
+                        patched(resample_mod, np=NpProxy(random=RS())), patched(mutate_mod, parallel_mcmc=recorder):
+                    ms = tr.run(W.copy())
+                    rs.run(W.copy())
+                    mut.run(ms)
+            except (ValueError, IndexError) as e:
+                out.append((tag + "steps-complete", False, f"{type(e).__name__}: {e}"))
+                return out
+            out.append((tag + "steps-complete", True, None))
+            refit_expected = round_ == 0 or (first_iter + round_) % cluster_every == 0
+            out.append((tag + "model-refitted-exactly-when-the-cadence-says-so", (clusterer.n_fit > fits_before_model) == refit_expected, {"fits_of_the_clustering_model": clusterer.n_fit}))
+            ms_k = seen["mode_stats"]
+            assign = [int(a) for a in np.asarray(seen["assignments"])]
+            raw = [int(a) for a in np.asarray(st._current["assignments"])]
+            hist_u = st.get_history("u", flat=True)
+            trim_idx, _ = tools.trim_weights(np.arange(len(W)), W.copy(), ess=0.99, bins=50)
+            X_train = np.asarray(hist_u, dtype=float)[trim_idx]
+            lab_train = np.array([clusterer.label_for(X_train[i]) for i in range(len(X_train))], dtype=int)
+            ok_range = all(0 <= a < ms_k.K for a in assign)
+            out.append((tag + "every-assignment-refers-to-an-existing-mode", bool(ok_range), {"assignments": assign, "n_modes": int(ms_k.K)}))
+            if ok_range:
+                # the fit double tags every fit through its mean (0.1 * (fit number + 1)): identify the fit behind the mode that is used and
+                # require that it saw only points which the model in force assigns to the particle's cluster (a mode kept from an earlier
+                # iteration is fine as long as that is true; one fitted on another cluster, or on nothing, is not)
+                good, why = True, None
+                for a, r in zip(assign, raw):
+                    j = int(round(float(np.asarray(ms_k.means[a]).ravel()[0]) / 0.1)) - 1
+                    members = fitd.fits[j] if 0 <= j < len(fitd.fits) else frozenset()
+                    cluster_now = frozenset(np.round(X_train[lab_train == r, 0], 9).tolist())
+                    labels_of_members = {clusterer.label_for(np.array([x_])) for x_ in members}
+                    if cluster_now and (not members or labels_of_members != {r}):
+                        good, why = False, {"particle_label": r, "mode_fitted_on": sorted(members), "labels_of_those_points": sorted(labels_of_members)}
+                out.append((tag + "mode-was-fitted-on-particles-of-that-cluster", bool(good), why))
+            own = [clusterer.label_for(st._current["u"][k]) for k in range(len(raw))]
+            out.append((tag + "assignment-is-the-predicted-label-of-that-particle", own == raw, {"raw": raw, "predicted": own}))
+            st.commit_current_to_history()
+        return out
+
+    def harness(ctx: PathCtx):
+        def pick(r_, j, a):
+            zi = integer(ctx, f"ridx{r_}_{j}", lo=0, hi=len(a) - 1)
+            return zi.resolve(0, len(a) - 1)
+        for label, ok, detail in verdicts(ClustererDouble(ctx, kmax), FitDouble(ctx), pick):
+            ctx.check(label, z3.BoolVal(bool(ok)), detail=detail)
+        return None
+
+    def replay(m, label, v):
+        """real steps with scripted functional clusterers and the model's resampling indices"""
+        problems = []
+        for name, by_point in (("two-clusters", lambda x: int(float(np.asarray(x).ravel()[0]) > 0.5)), ("only-label-1", lambda x: 1),
+                               ("three-way", lambda x: min(kmax - 1, int(float(np.asarray(x).ravel()[0]) * 3))), ("labels-swap-on-refit", None)):
+            c2 = ClustererDouble(None, kmax, script={"K": kmax, "by_point": by_point})
+            if name == "labels-swap-on-refit":
+                # a refit may number the clusters differently: the same partition, labels exchanged at every second fit
+                c2.script["by_point"] = lambda x, c2=c2: int(float(np.asarray(x).ravel()[0]) > 0.5) ^ (1 if c2.n_fit % 2 == 0 else 0)
+            f2 = FitDouble(None, inf_dof=[False] * 16)
+            try:
+                res = verdicts(c2, f2, lambda r_, j, a: min(len(a) - 1, int(m.get(f"ridx{r_}_{j}", len(a) - 1))))
+            except Exception as e:
+                res = [("steps-complete", False, f"{type(e).__name__}: {e}")]
+            problems += [(name, l_, d_) for l_, ok, d_ in res if not ok]
+        return {"reproduced": bool(problems), "signature": "two-iterations:" + (problems[0][1] if problems else label), "payload": {"problems": [(n_, l_, str(d_)[:200]) for n_, l_, d_ in problems[:4]]},
+                "what": "real Trainer/Resampler/Mutator over two consecutive iterations with a scripted functional clusterer: " + "; ".join(f"[{n_}] {l_}: {d_}" for n_, l_, d_ in problems[:2])}
+
+    return Obligation(f"two-iterations-every{cluster_every}-pool{npool}-K{kmax}", harness, replay=replay,
+                      encodes=[train_mod.Trainer.run, resample_mod.Resampler.run, mutate_mod.Mutator.run, ModeStatistics.from_particles],
+                      bounds=f"cluster_every={cluster_every}, iterations {first_iter} and {first_iter + 1}, pool of {npool} then {npool + 1} points, 1 active particle, K <= {kmax}, "
+                             "every label pattern and resampling index in both iterations",
+                      stubs=["clusterer -> contract double", "fit_mvstud -> tagged contract double", "np.random.choice -> symbolic indices / covering representative",
+                             "parallel_mcmc -> recorder (identity move)"], theory="QF_LIA", max_paths=60000, max_decisions=400)
+
+
 def make_global(npool):
     """clustering disabled: one global mode, all assignments 0, dof fallback applied."""
     W = np.array(POOL_W[npool])
@@ -455,8 +559,8 @@ def make_mode_fit_draws(npts, kmax):
 def obligations(tier):
     obs = [make_pipeline(1, 4, 2, 2), make_pipeline(3, 4, 1, 2), make_pipeline(5, 3, 1, 2), make_global(4), make_pipeline(2, 3, 1, 2, resumed=True), make_mode_fit_draws(4, 2),
            # the smallest positive temperature the bisection can return (2^-14): every step must treat it as an annealing iteration
-           make_pipeline(1, 4, 2, 2, beta_cur=2.0 ** -14)]
+           make_pipeline(1, 4, 2, 2, beta_cur=2.0 ** -14), make_two_iterations(3, 3, 2)]
     if tier == "thorough":
         obs += [make_pipeline(1, 5, 1, 3), make_pipeline(1, 4, 2, 3), make_pipeline(2, 4, 2, 2), make_pipeline(7, 4, 1, 2, first_iter_range=(1, 15)),
-                make_pipeline(3, 4, 1, 2, resumed=True), make_mode_fit_draws(5, 2), make_mode_fit_draws(4, 3)]
+                make_pipeline(3, 4, 1, 2, resumed=True), make_mode_fit_draws(5, 2), make_mode_fit_draws(4, 3), make_two_iterations(2, 4, 2, first_iter=4), make_two_iterations(3, 3, 3), make_two_iterations(1, 3, 2)]
     return obs
